@@ -70,7 +70,7 @@ CHECKS = {
         technique="panic / allocation / step monitors + sanitizer lanes over exhaustive short inputs and structure-aware mutation",
         level="fault_enumeration",
         quick=NATIVE,
-        thorough=NATIVE + [("rel", 1.0, {"exhaustive3": "1"}), ("asan", 0.1), ("msan", 0.1)],
+        thorough=NATIVE + [("rel", 1.0, {"exhaustive3": "1"}), ("asan", 0.1), ("msan", 0.1), ("memcheck", 0.02)],
         custom="c05_depth_probe",
         rule="faults = hostile inputs: (a) all byte strings of length 0..2 per type, (b) valid encodings tampered at a field the reference decoder's annotated parse identifies (chunk size, count, length, tag, position byte, version, constructor index, string id), chunk surgery, splices, bit flips, overwrites with varint edge encodings, truncation, (c) random bytes, (d) primitive read sequences with counts {0, 1, remaining, remaining+1, usize::MAX, usize::MAX - pos + k}; (e) tampered encodings read by client types whose hand-written codec survives a failing nested decode (Tolerant<T> fields in evolved records and constructors, same / older / newer version of the field): the library regains control after its own error; every case counts as non-trivial (any outcome other than Ok/Err within budget is a violation); distinct by (type, input)",
         floors={"any": {"types_with_exhaustive_short_inputs": 1000, "outcome:Err": 100000, "outcome:Ok": 10000, "hostile_op_sequences": 10000, "tolerant:nested_failure_survived": 1000}},
@@ -129,7 +129,7 @@ CHECKS = {
         technique="graph-model monitor (byte-exact + isomorphism + pointer equality) over exhaustive small graphs; Miri lane",
         level="exploration",
         quick=NATIVE + [("miri", 0.008, {"shards": 16, "max_nodes": 2})],
-        thorough=NATIVE + [("asan", 1.0), ("miri", 0.005, {"shards": 16, "max_nodes": 3})],
+        thorough=NATIVE + [("asan", 1.0), ("memcheck", 0.2), ("miri", 0.005, {"shards": 16, "max_nodes": 3})],
         rule="graphs enumerated exhaustively up to the node bound (all ordered edge lists of length 0..2 per node, all nodes reachable), random beyond; non-trivial = some node is offered more than once (sharing, cycle or self-loop); distinct by adjacency structure",
         floors={"any": {"graphs_rebuilt_isomorphic": 500, "unknown_object_numbers_rejected": 500, "embedded_graph_rebuilt": 500, "embedded_graph_bytes_ok": 500}},
     ),
@@ -223,7 +223,7 @@ CHECKS = {
         level="other",
         explanation="witness catalogue: compiler verdict per witness, Miri verdict for every witness that compiles; sanitizer lanes: hostile and valid inputs through the unsafe decode paths with full traversal of results; evidence lists the verdict table and per-lane executions",
         quick=[("dbg", 1.0), ("asan", 1.0)],
-        thorough=[("dbg", 1.0), ("asan", 1.0), ("msan", 0.3), ("miri", 0.02, {"shards": 16})],
+        thorough=[("dbg", 1.0), ("asan", 1.0), ("msan", 0.3), ("memcheck", 0.1), ("miri", 0.02, {"shards": 16})],
         custom="c19_witnesses",
         rule="part 1: one case per witness; part 2: (type, input) pairs through the unsafe decode paths, plus tampered encodings read by lenient client codecs (a nested decode fails, the client carries on) from allocations of exactly the input length, distinct by (type, input)",
         floors={"any": {"witnesses_rejected_by_the_compiler": 6, "negative_controls_clean": 2, "types_with_unsafe_decode_paths": 50, "tolerant:nested_failure_survived": 1000}},
